@@ -93,10 +93,13 @@ def caseOf (G : Grammar) (cap F : Nat) (start : Node) (h : List Msg) : Json :=
   -- the partial derivations of a history nest as deep as the history is long (right recursion)
   let Fc := (h.length + 2) * (G.rules.length + 1)
   let ps := positions G cap Fc start h
+  -- open bounds are unbounded in the judged language (docs/Language.md: "an infinite upper bound"; as in E2 `Valid`
+  -- and C05); `nexts_cap`: the same with the documented repetition limit (`capG`), what the visitor implements
   Json.mkObj [("h", jMsgs h),
     ("nexts", jMsgs (nexts G F start h).eraseDups),
     ("complete", Json.bool (complete G F start h)),
     ("prefix", Json.bool (isPrefix G F start h)),
+    ("nexts_cap", jMsgs (nexts (capG cap G) F start h).eraseDups),
     ("code", jMsgs (codeNexts false G cap Fc start h)),
     ("code_fixed", jMsgs (codeNexts true G cap Fc start h)),
     ("code_fixed_nocap", jMsgs (codeNexts true G 1000000 Fc start h)),
